@@ -165,3 +165,4 @@ def run(ctx):
   shape.check_inorder_accumulation(ctx, gp, "paragraphs", gp.params[1])
   pr = ctx.ix.func("ttconv.filters.isd.merge_paragraphs:ParagraphsMergingISDFilter.process")
   shape.check_inorder_accumulation(ctx, pr, "paragraphs", "original_divs")
+  common.check_history_independence(ctx, common.WRITERS + common.ISD_FILTERS + ["ttconv.isd"])
